@@ -179,10 +179,10 @@ class C07(Prop):
             eps = 1e-3 if case["acc"] == "high" else 2e-2
             return "(PoisExc.GPo (PoisExc.Build_pcase %s %s %s %s %s %s %s %s %s %s %s %s %s %s))" % (
                 common, qv(sys["lb"].tolist()), qv(sys["ub"].tolist()), base, w, qv(case["b"]), qv(p["xclip"].tolist()), qv(p["x0"].tolist()), qv(out["X"]), qv(out["Bpred"]),
-                cbool(p["in_gamut"]), q(eps), q(1e-5 if case["acc"] == "high" else 1e-2 * float(np.min(sys["ub"] - sys["lb"]))), q(2e-2))
+                cbool(p["in_gamut"]), q(eps), qv([(1e-5 if case["acc"] == "high" else 1e-2 * float(r_)) for r_ in (sys["ub"] - sys["lb"])]), q(2e-2))
         return "(PoisExc.GEx (PoisExc.Build_ecase %s %s %s %s %s %s %s %s %s %s %s %s %s %s))" % (
             common, obounds(sys["lb"]), obounds(sys["ub"]), base, w, qv(case["b"]), qv(p["xclip"].tolist()), qv(out["X"]), qv(out["Bpred"]),
-            cbool(p["in_gamut"]), q(p["delta"]), qv(p["lam"]), q(1e-2 * float(np.min(sys["ub"] - sys["lb"]))), q(2e-2))
+            cbool(p["in_gamut"]), q(p["delta"]), qv(p["lam"]), qv([1e-2 * float(r_) for r_ in (sys["ub"] - sys["lb"])]), q(2e-2))
 
     def spec_violation(self, case, out):
         cfg = "%s:base-%s" % (case["model"], "zero" if case["sys"]["bkind"] == "zero" else "nonzero")
@@ -211,21 +211,17 @@ class C07(Prop):
         else:
             t = float(np.max(np.abs(b / (1 + b) - pred / (1 + pred))))
             lo, hi = 0.0, t
+            from scipy.optimize import linprog
             for _ in range(40):
                 s = (lo + hi) / 2
-                cons = [z >= sys["lb"], z <= sys["ub"]]
+                # the level set at s is a polyhedron (two linear rows per receptor): feasibility decided by an LP (HiGHS)
+                G_, h_ = [], []
                 for j in range(sys["m"]):
-                    c = s * (1 + b[j])
-                    cons += [b[j] - pz[j] <= c * (1 + pz[j]), pz[j] - b[j] <= c * (1 + pz[j])]
-                pr = cp.Problem(cp.Minimize(0), cons)
-                try:
-                    pr.solve(solver="CLARABEL")
-                except Exception:  # noqa
-                    try:
-                        pr.solve(solver="SCS")
-                    except Exception:  # noqa
-                        lo = s; continue
-                if pr.status in ("optimal", "optimal_inaccurate"):
+                    c = s * (1 + b[j]); a_ = p["Ap"][j]; k_ = p["bp"][j]
+                    G_.append(-(1 + c) * a_); h_.append(c - b[j] + (1 + c) * k_)
+                    G_.append((1 - c) * a_); h_.append(b[j] + c - (1 - c) * k_)
+                r_ = linprog(np.zeros(sys["n"]), A_ub=np.array(G_), b_ub=np.array(h_), bounds=list(zip(sys["lb"], sys["ub"])), method="highs")
+                if r_.status == 0:
                     hi = s
                 else:
                     lo = s
